@@ -131,7 +131,9 @@ class Int(numerical.Numerical):
         if self.step is None:
             # prob is in range [0.0, 1.0), use max_value + 1 so that
             # max_value may be sampled.
-            return int(self._sample_numerical_value(prob, self.max_value + 1))
+            value = int(self._sample_numerical_value(prob, self.max_value + 1))
+            # `max_value + 1` itself is reached when `prob` is (close to) 1.
+            return min(value, self.max_value)
         return int(self._sample_with_step(prob))
 
     @property
